@@ -26,6 +26,9 @@ type sortCase struct {
 	Frame  model.Frame `json:"frame"`
 	Shape  int         `json:"shape"`
 	Orders []ordSpec   `json:"orders"`
+	// History: "resort-neg" = Sort(orders), then the key column k is overwritten by -k (Apply), then Sort(orders)
+	// again; "resort-copy" = the key is overwritten by Copy(k <- id); "resort-filter" = Sort, Filter(k != first value), Sort
+	History string `json:"history,omitempty"`
 	// Seam: "" = public API; "quick" = real quickSort entered with Depth on
 	// [A,B); "heap" = real heapSort on [A,B).
 	Seam  string `json:"seam,omitempty"`
@@ -193,6 +196,30 @@ func runSortCase(c sortCase) *core.Failure {
 	}
 	in.AdoptMeta(c.Frame)
 	before := in.String()
+	if c.History != "" {
+		// the frame was sorted by the same orders before and then changed: the second Sort must order
+		// it by its CURRENT content
+		first := qf.Sort(toOrders(c.Orders)...)
+		var changed qframe.QFrame
+		switch c.History {
+		case "resort-neg":
+			changed = first.Apply(qframe.Instruction{Fn: func(x int) int { return -x }, DstCol: "k", SrcCol1: "k"})
+		case "resort-copy":
+			changed = first.Copy("k", "id")
+		default:
+			changed = first.Filter(qframe.Filter{Column: "id", Comparator: "!=", Arg: 0})
+		}
+		in2 := model.Observe(changed)
+		if in2.Err {
+			return core.Failf("history step failed: %s", in2.ErrText)
+		}
+		out2 := model.Observe(changed.Sort(toOrders(c.Orders)...))
+		if f := checkSorted(in2, out2, c.Orders); f != nil {
+			f.Msg = "after " + c.History + " of a frame sorted before: " + f.Msg
+			return f
+		}
+		return nil
+	}
 	out := model.Observe(qf.Sort(toOrders(c.Orders)...))
 	out.AdoptMeta(c.Frame)
 	if f := checkSorted(in, out, c.Orders); f != nil {
@@ -439,6 +466,22 @@ func c03Run(ctx *core.Ctx) {
 		}
 	}
 
+	// Layer 4: sorting again after the sorted frame was changed (int keys, all sequences over {0,1,2}, n <= 6; 14..15 over {0,1})
+	for _, spec := range []struct{ k, lo, hi int }{{3, 2, 6}, {2, 13, 15}} {
+		for n := spec.lo; n <= spec.hi; n++ {
+			forEachSeq(n, spec.k, func(seq []int) {
+				for _, h := range []string{"resort-neg", "resort-copy", "resort-filter"} {
+					for _, o := range [][]ordSpec{{{Col: "k"}}, {{Col: "k", Reverse: true}}} {
+						if !ctx.Mine() {
+							continue
+						}
+						exec(sortCase{Layer: "L4", Frame: intFrame(seq), Orders: o, History: h, Shape: int(ctx.Index() % int64(model.NShapes))}, true)
+						ctx.Outcome("L4/" + h)
+					}
+				}
+			})
+		}
+	}
 	// Layer 3: heapsort fallback and depth budget, through the seam
 	maxSeq, maxPerm := 8, 6
 	if !ctx.Quick() {
@@ -589,6 +632,7 @@ func init() {
 		Rule: "case = (frame cells, index shape, order list[, seam entry]) enumerated exhaustively per layer " +
 			"(L1: all frames n<=N over per-type alphabets of 3-5 values + null (int extremes of opposite sign, strings that are prefixes of each other) x {0,1} second key x all 40 order lists x 7 index shapes; " +
 			"L2: all int sequences over {0,1} and {0,1,2} up to the stated lengths (all 7 index shapes for lengths 11..15, one rotating shape otherwise), ninther-size base patterns on all shapes in both directions with all <=2 point deviations; " +
+			"L4: Sort, then overwrite the key (Apply k := -k / Copy k <- id) or filter, then the same Sort again, on all sequences over {0,1,2} up to 6 rows and {0,1} for 13..15 rows; " +
 			"L3: real quickSort/heapSort entered through the seam on all small sequences/permutations and sub-ranges, plus adversarial inputs). " +
 			"Non-trivial = the keys hold at least two distinct values (L1) / length >= 2 (others); distinct by enumeration index.",
 		Assumptions: []string{
